@@ -691,26 +691,87 @@ func ruleMonotonePosition(c *Ctx) {
 			}
 		})
 	}
-	// the positions stored in a mapping are the current ones
-	for _, name := range []string{"(*sourcemap.SourceMapper).AddMapping", "(*sourcemap.SourceMapper).AddNamedMapping"} {
-		f := c.fn(name)
-		if f == nil {
-			continue
-		}
-		okL, okC := false, false
+	// the positions stored in a mapping are the current ones: every Mapping built in the library gets both generated
+	// coordinates, and every store to them is a read of the mapper's current position
+	nlit := 0
+	for _, f := range c.libFunctions() {
+		nf := 0
 		allInstrs(f, func(_ *ssa.BasicBlock, _ int, in ssa.Instruction) {
-			if st, ok := in.(*ssa.Store); ok {
-				if fa, ok := st.Addr.(*ssa.FieldAddr); ok && namedIs(fa.X.Type(), "sourcemap", "Mapping") {
-					switch fieldOfAddr(fa).Name() {
-					case "GeneratedLine":
-						_, okL = isFieldLoad(st.Val, line)
-					case "GeneratedColumn":
-						_, okC = isFieldLoad(st.Val, col)
+			al, ok := in.(*ssa.Alloc)
+			if !ok || !namedIs(al.Type(), "sourcemap", "Mapping") {
+				return
+			}
+			if n := namedOf(deref(al.Type())); n == nil || n.Obj().Name() != "Mapping" {
+				return
+			}
+			whole := false
+			okL, okC, hasL, hasC := false, false, false, false
+			for _, r := range *al.Referrers() {
+				switch x := r.(type) {
+				case *ssa.Store:
+					if x.Addr == ssa.Value(al) {
+						whole = true // initialised from another mapping value (judged where that one is built)
+					}
+				case *ssa.FieldAddr:
+					for _, r2 := range *x.Referrers() {
+						st, ok := r2.(*ssa.Store)
+						if !ok || st.Addr != ssa.Value(x) {
+							continue
+						}
+						switch fieldOfAddr(x).Name() {
+						case "GeneratedLine":
+							hasL = true
+							_, okL = isFieldLoad(st.Val, line)
+						case "GeneratedColumn":
+							hasC = true
+							_, okC = isFieldLoad(st.Val, col)
+						}
 					}
 				}
 			}
+			nf++
+			nlit++
+			key := fmt.Sprintf("%s: mapping value #%d records the current generated position", fnName(f), nf)
+			switch {
+			case whole && !hasL && !hasC:
+				c.ok(key, al.Pos(), "copy of a mapping built elsewhere; its generated position is not touched")
+			case whole:
+				c.check((!hasL || okL) && (!hasC || okC), key, al.Pos(), "copy whose generated position is re-read from the mapper", "a mapping's generated position is overwritten with something other than the mapper's current position")
+			default:
+				c.check(okL && okC, key, al.Pos(), "GeneratedLine/Column = the mapper's current position", "a mapping is recorded with something other than the current generated position")
+			}
 		})
-		c.check(okL && okC, name+": records the current generated position", f.Pos(), "GeneratedLine/Column = the mapper's current position", "a mapping is recorded with something other than the current generated position")
+	}
+	for _, f := range c.libFunctions() {
+		n := 0
+		allInstrs(f, func(_ *ssa.BasicBlock, _ int, in ssa.Instruction) {
+			st, ok := in.(*ssa.Store)
+			if !ok {
+				return
+			}
+			fa, ok := st.Addr.(*ssa.FieldAddr)
+			if !ok || !namedIs(fa.X.Type(), "sourcemap", "Mapping") {
+				return
+			}
+			if _, isAlloc := fa.X.(*ssa.Alloc); isAlloc {
+				return
+			}
+			var cur *types.Var
+			switch fieldOfAddr(fa).Name() {
+			case "GeneratedLine":
+				cur = line
+			case "GeneratedColumn":
+				cur = col
+			default:
+				return
+			}
+			n++
+			_, okv := isFieldLoad(st.Val, cur)
+			c.check(okv, fmt.Sprintf("%s: in-place write #%d of a recorded generated position", fnName(f), n), st.Pos(), "re-read from the mapper", "the generated position of an already recorded mapping is overwritten")
+		})
+	}
+	if nlit == 0 {
+		c.unres("mapping values", token.NoPos, "no sourcemap.Mapping value is built in the library")
 	}
 }
 
